@@ -71,3 +71,22 @@ def enclosing(n: ast.AST, types, stop: ast.AST = None):
             return p
         p = parent(p)
     return None
+
+
+def transition_calls_deep(P, f: Func, depth: int = 2, _seen=None):
+    """transition calls in f and in same-class helpers reached through self.<m>() calls:
+    [(function containing the call, call, receiver, state, call-site chain in f)]"""
+    _seen = _seen or set()
+    out = [(f, c, r, s, []) for (c, r, s) in transition_calls(f)]
+    if depth <= 0 or not f.cls:
+        return out
+    cls = f.mod.classes.get(f.cls)
+    for c in own_nodes(f.node):
+        if isinstance(c, ast.Call) and isinstance(c.func, ast.Attribute) and norm.is_name(c.func.value, "self") and cls \
+                and c.func.attr in cls.methods and c.func.attr != "transition":
+            g = cls.methods[c.func.attr]
+            if id(g.node) in _seen or g.node is f.node:
+                continue
+            for (fn2, c2, r2, s2, chain) in transition_calls_deep(P, g, depth - 1, _seen | {id(f.node)}):
+                out.append((fn2, c2, r2, s2, [c] + chain))
+    return out
